@@ -9,6 +9,7 @@ import shutil
 import struct
 import sys
 import tempfile
+import warnings
 
 import numpy as np
 
@@ -23,7 +24,13 @@ LEVEL = "proof"
 # shipped model hands the same dict object to every sample) and only checked by correspondence.
 STRICT_SHARED = os.environ.get("VERIF_C10_STRICT_SHARED", "0") == "1"
 
-RULE = ("kinds: roundtrip (both shipped sample types, declared size 1..14, 0..13 stored samples crossing 10, "
+RULE = ("kinds: pipeline (end to end with REAL objects, predicate only: two chains of 12 real sweeps (thorough: 30) of SparseDrugCombo / "
+        "SparseDrugComboInteraction on a 20-row screen, get_model_state after every sweep, save_h5 / load_h5 of both chains - reloaded samples "
+        "bit-identical incl. numpy scalar types, same order, identical predictions -, evaluate_model.main() on the files in swapped order - "
+        "columns = the samples' predictions chain-major, aligned chain ids -, analyze_model_evaluation.main() - reported numbers = the "
+        "definitions on that evaluation); roundtrip (also: numpy-scalar attributes alpha np.float32 / precision np.float64 as get_model_state exports them, Fortran-ordered "
+        "and strided arrays, 100 / 101 stored samples (thorough: 257, 1000) through load_h5, arrays of 64x8 / 700x8 (thorough 100x10 / 3000x10); "
+        "evaluate: every prediction method is called on the samples BEFORE they are saved); roundtrip (both shipped sample types, declared size 1..14, 0..13 stored samples crossing 10, "
         "float64/float32 arrays incl. zero-size, values from specials (denormals, -0.0, max double, non-float32 doubles, "
         "inf, NaN payloads) / random 64-bit patterns, empty / shared / per-sample single-effect tables) through the real "
         "save_h5 + load_h5, compared bit-for-bit; keys (h5py iteration order of the group names, n up to 3 digits); "
@@ -111,6 +118,8 @@ THEOREMS.update({
     "C10_sc_from_dicts_only_of_private": "conversely, a dict that from_dicts accepts is (as a finite map) the private dict of the sample it returns",
     "C10_source_save_primitives_are_translations": "consistency with C10_model_is_source_save_h5: with P = S = parameter dict and a sample represented as (private dict, shared dict), the meanings fst / snd that the save_h5 configuration gave to t.private_parameters_dict() / t.shared_parameters_dict() are what the translated methods of t's class compute, for every shipped sample",
     "C10_source_load_primitive_is_translation": "consistency with C10_model_is_source_load_h5: the pair (p, s) that the load_h5 configuration gave to C.from_dicts(private_params=p, shared_params=s) stands for the sample - the translated from_dicts of the sample's class returns t from t's own pair (tables with distinct keys)",
+    "C10_source_cli_evaluate_is_thetas_evaluate": "the two models of evaluate_model.main are one: the TRANSLATED main() with the Thetas model as its library (load = any function of the path, concat_holders, declared size, one prediction column per get_theta(k), ModelEvaluation's length check) is Thetas.evaluate on the holders loaded in argument order - so C10_evaluate_labels / _partial_refused are theorems about the translated main()",
+    "C10_source_cli_evaluate_complete": "... and for complete non-empty chains whose files are what save_h5 wrote, read by load_h5, the translated main() writes exactly one evaluation whose columns are chain-major (all of the first --thetas file in step order, then the second, ...) each labelled with the position of its file on the command line",
     "C10_source_samples_persist": "end to end through translated code only: a non-empty collection of shipped samples within its declared size, sharing their shared parameters, goes through the translated save_h5, the file, the translated load_h5 and the translated from_dicts and comes back as the same declared size and the same samples in the same order",
     "C10_model_is_source_theta_equals": "the translation of the whole method Theta.equals (class test, the two pairs of dicts, both loops with their early returns, `k not in d2`, the Number / ArrayType / other branches) equals the model's theta_equals for ANY sample class given by its class test and dict methods and any comparison functions",
     "C10_source_equals_is_sample_eqb": "on any two shipped samples, with dispatch to the translated dict methods, the translated equals returns (never raises) the model equality: field by field, the tables row by row in iteration order, false across classes",
@@ -213,18 +222,40 @@ def _arr(r, shape, mode, dtype):
     return a
 
 
-def make_sample(r, typ, dims, mode, dtype, table):
+def _layout(a, layout):
+    """the same values in another memory layout: Fortran order, or a strided (non-contiguous) view of a wider buffer"""
+    if layout == "F" and a.ndim == 2:
+        return np.asfortranarray(a)
+    if layout == "strided":
+        wide = np.zeros(a.shape[:-1] + (2 * a.shape[-1],), dtype=a.dtype) if a.ndim else None
+        if wide is not None:
+            wide[..., ::2] = a
+            wide[..., 1::2] = 77.0
+            return wide[..., ::2]
+    return a
+
+
+def _scalar(x, scalars):
+    """real exported samples carry numpy scalars (get_model_state: alpha np.float32, precision np.float64)"""
+    with np.errstate(all="ignore"):
+        return {"f4": np.float32, "f8": np.float64}.get(scalars, float)(x)
+
+
+def make_sample(r, typ, dims, mode, dtype, table, scalars="py", layout="C"):
     from batchie.models.sparse_combo import SparseDrugComboMCMCSample
     from batchie.models.sparse_combo_interaction import SparseDrugComboInteractionMCMCSample
     ns, nt, D = dims
+
+    def arr(shape):
+        return _layout(_arr(r, shape, mode, dtype), layout)
     if typ == "inter":
         return SparseDrugComboInteractionMCMCSample(
-            W=_arr(r, (ns, D), mode, dtype), V2=_arr(r, (nt, D), mode, dtype),
-            precision=_value(r, mode), single_effect_lookup=table)
+            W=arr((ns, D)), V2=arr((nt, D)),
+            precision=_scalar(_value(r, mode), scalars if scalars != "f4" else "f8"), single_effect_lookup=table)
     return SparseDrugComboMCMCSample(
-        W=_arr(r, (ns, D), mode, dtype), W0=_arr(r, (ns,), mode, dtype), V2=_arr(r, (nt, D), mode, dtype),
-        V1=_arr(r, (nt, D), mode, dtype), V0=_arr(r, (nt,), mode, dtype),
-        alpha=_value(r, mode), precision=_value(r, mode))
+        W=arr((ns, D)), W0=arr((ns,)), V2=arr((nt, D)),
+        V1=arr((nt, D)), V0=arr((nt,)),
+        alpha=_scalar(_value(r, mode), scalars), precision=_scalar(_value(r, mode), scalars if scalars != "f4" else "f8"))
 
 
 def make_table(r, size, mode):
@@ -260,7 +291,7 @@ def build_roundtrip_samples(desc):
                 tb[(9, 9)] = 0.25
         else:
             tb = shared_table
-        out.append(make_sample(r, typ, dims, mode, dtype, tb))
+        out.append(make_sample(r, typ, dims, mode, dtype, tb, desc.get("scalars", "py"), desc.get("layout", "C")))
     return out
 
 
@@ -290,6 +321,23 @@ def gen(rng, tier):
             d["table"] = rng.choice(["empty", "shared", "shared", "mixed"])
             d["tsize"] = 0 if d["table"] == "empty" else rng.randint(0 if d["table"] == "mixed" else 1, 6)
         yield d
+    # what real samples look like: numpy-scalar attributes (alpha np.float32, precision np.float64 as get_model_state exports them),
+    # Fortran-ordered / strided arrays, realistic sizes (gzip chunking), three-digit sample counts through load_h5
+    for _ in range(60 if not big else 500):
+        typ = rng.choice(["combo", "combo", "inter"])
+        n = rng.choice([1, 2, 3, 10, 11, 12])
+        d = dict(kind="roundtrip", type=typ, declared=n, n=n,
+                 dims=[rng.choice([1, 2, 3]), rng.choice([1, 2, 4]), rng.choice([1, 2, 3])],
+                 mode=rng.choice(["special", "bits", "mixed", "moderate"]), dtype=rng.choice(["f8", "f4"]),
+                 scalars=rng.choice(["f4", "f4", "f8", "py"]), layout=rng.choice(["C", "F", "F", "strided", "strided"]),
+                 vseed=rng.getrandbits(32))
+        if typ == "inter":
+            d["table"] = "shared"
+            d["tsize"] = rng.randint(1, 6)
+        yield d
+    for n, dims in ([(100, [1, 1, 1]), (101, [1, 1, 1]), (3, [64, 700, 8])] + ([(1000, [1, 1, 1]), (257, [2, 3, 2]), (5, [100, 3000, 10])] if big else [])):
+        yield dict(kind="roundtrip", type="combo", declared=n, n=n, dims=dims, mode="moderate", dtype="f4" if n == 3 else "f8",
+                   scalars="f4", layout="C", vseed=rng.getrandbits(32))
     # malformed / refusal stream for persistence
     for _ in range(12 if not big else 60):
         yield dict(kind="roundtrip", type=rng.choice(["combo", "inter"]), declared=rng.choice([0, 1, 5, -1]), n=0,
@@ -327,6 +375,10 @@ def gen(rng, tier):
         order = list(range(len(chains)))
         rng.shuffle(order)
         yield dict(kind="evaluate", type=rng.choice(["combo", "inter"]), chains=chains, order=order, vseed=rng.getrandbits(32))
+    # end to end with real objects: sampler -> get_model_state -> save_h5 -> load_h5 -> evaluate_model -> analyze_model_evaluation
+    for i in range(2 if not big else 10):
+        yield dict(kind="pipeline", type=["combo", "inter"][i % 2], D=rng.choice([2, 3]), chains=2, sweeps=12 if not big else rng.choice([12, 30]),
+                   seed=rng.randrange(1 << 30))
     # checkpoints of a growing collection
     for _ in range(30 if not big else 300):
         n = rng.randint(2, 4)
@@ -436,6 +488,14 @@ def _run_roundtrip(desc):
             if pred is None and second.get("v") != out:
                 pred = "save/load of the reloaded holder is not a fixed point"
     feats = ["roundtrip", desc["type"], "values-" + desc["mode"], desc["dtype"]]
+    if desc.get("scalars", "py") != "py":
+        feats.append("numpy-scalars:" + desc["scalars"])
+    if desc.get("layout", "C") != "C":
+        feats.append("layout:" + desc["layout"])
+    if n >= 100:
+        feats.append("n>=100(three-digit groups loaded)")
+    if int(np.prod(desc["dims"])) >= 10000:
+        feats.append("realistic-size")
     if n == 0:
         feats.append("save-empty")
     if overfull:
@@ -572,6 +632,12 @@ def _run_evaluate(desc):
         hs.append(h)
     with np.errstate(all="ignore"):
         ref = [np.asarray(t.predict_viability(screen), dtype=float) for t in samples]
+        # every prediction method is used BEFORE the samples are saved (the order of the real pipeline: scoring / evaluation use
+        # the samples that are later written): a prediction that leaves anything behind on the sample (its private parameters are
+        # its __dict__) would change the file or break the reload below
+        for t in samples:
+            t.predict_conditional_mean(screen)
+            t.predict_conditional_variance(screen)
     refbits = [tuple(_bits_list(p)) for p in ref]
     if len(set(refbits)) != len(refbits):
         raise RuntimeError("harness: two generated samples predict identically; cannot recognise columns")
@@ -792,6 +858,155 @@ def _run_equals(desc):
     return dict(wire=None, impl=None, pred=pred, features=["equals", "type:" + typ, "differ:" + mut])
 
 
+def _run_pipeline(desc):
+    """two chains of real sweeps of a shipped model on a 20-row screen; the exported samples (numpy-scalar attributes, float32 / float64
+    arrays as the sampler leaves them) go through ThetaHolder.save_h5 / load_h5, evaluate_model.main() and analyze_model_evaluation.main().
+    Predicate only: the reloaded samples are the saved ones bit for bit (dtype and shape included) in the same order and predict
+    identically; the evaluation's columns are the samples' predictions in chain-major order with aligned chain ids; the report's
+    numbers are those of that evaluation."""
+    import json
+    from batchie.cli import analyze_model_evaluation, evaluate_model
+    from batchie.core import ThetaHolder
+    from batchie.data import ExperimentSpace, Screen
+    from batchie.models.main import ModelEvaluation
+    from batchie.models.sparse_combo import SparseDrugCombo
+    from batchie.models.sparse_combo_interaction import SparseDrugComboInteraction
+    r = random.Random(desc["seed"])
+    names, doses, samples, obs = [], [], [], []
+    drugs = ["x", "y", "z"]
+    for s_ in ("a", "b", "c"):                       # every single agent of every sample measured, then combinations
+        for dg in drugs:
+            names.append([dg, ""]); doses.append([1.0, 0.0]); samples.append(s_); obs.append(r.uniform(0.2, 0.95))
+    while len(names) < 20:
+        a, b = r.sample(drugs, 2)
+        names.append([a, b]); doses.append([1.0, 1.0]); samples.append(r.choice(["a", "b", "c"])); obs.append(r.uniform(0.05, 0.9))
+    n = len(names)
+    screen = Screen(observations=np.array(obs), observation_mask=np.array([True] * n), sample_names=np.array(samples, dtype=str),
+                    plate_names=np.array(["p%d" % (i % 3) for i in range(n)], dtype=str), treatment_names=np.array(names, dtype=str),
+                    treatment_doses=np.array(doses))
+    cls = SparseDrugCombo if desc["type"] == "combo" else SparseDrugComboInteraction
+    d = _tmpdir()
+    pred, feats = None, ["pipeline", desc["type"], "real-sampler"]
+    state = np.random.get_state()
+    try:
+        def go():
+            np.random.seed(desc["seed"] % (1 << 32))
+            model = cls(n_embedding_dimensions=desc["D"], experiment_space=ExperimentSpace.from_screen(screen))
+            model.set_rng(np.random.default_rng(desc["seed"]))
+            model.add_observations(screen.subset_observed())
+            holders = []
+            for _c in range(desc["chains"]):
+                model.reset_model()
+                h = ThetaHolder(desc["sweeps"])
+                for _s in range(desc["sweeps"]):
+                    model.step()
+                    h.add_theta(model.get_model_state())
+                holders.append(h)
+            files = []
+            screen.save_h5(os.path.join(d, "screen.h5"))
+            for c, h in enumerate(holders):
+                fn = os.path.join(d, "chain_%d.h5" % c)
+                h.save_h5(fn)
+                files.append(fn)
+            loaded = [ThetaHolder.load_h5(fn) for fn in files]
+            return holders, files, loaded
+        with warnings.catch_warnings():
+            warnings.simplefilter("ignore")
+            out = impl_call(go)
+        if isinstance(out, ImplError):
+            return dict(wire=None, impl=out, pred="the pipeline raised before the samples were reloaded: %r" % (out,), features=feats)
+        holders, files, loaded = out
+        alls = [t for h in holders for t in h.thetas]
+        kinds = sorted({type(getattr(alls[0], k)).__name__ for k in ("alpha", "precision") if hasattr(alls[0], k)})
+        feats.append("scalar-types:" + "+".join(kinds))
+        with warnings.catch_warnings(), np.errstate(all="ignore"):
+            warnings.simplefilter("ignore")
+            for c, (h, h2) in enumerate(zip(holders, loaded)):
+                if h2.n_thetas != h.n_thetas or len(h2.thetas) != len(h.thetas):
+                    pred = "chain %d: %d of %d samples saved, %d of %d reloaded" % (c, len(h.thetas), h.n_thetas, len(h2.thetas), h2.n_thetas)
+                    break
+                for i, (t, t2) in enumerate(zip(h.thetas, h2.thetas)):
+                    if canon_sample(t) != canon_sample(t2):
+                        j = [k for k, u in enumerate(h.thetas) if canon_sample(u)[0] == canon_sample(t2)[0]]
+                        pred = "chain %d: reloaded sample %d differs from the saved one%s" % (c, i, " (= saved sample %d: order changed)" % j[0] if j else " (values, dtype or shape)")
+                        break
+                    for m_ in ("predict_viability", "predict_conditional_mean", "predict_conditional_variance"):
+                        a, b = np.asarray(getattr(t, m_)(screen)), np.asarray(getattr(t2, m_)(screen))
+                        if a.dtype != b.dtype or a.shape != b.shape or a.tobytes() != b.tobytes():
+                            pred = "chain %d: reloaded sample %d does not predict identically (%s)" % (c, i, m_)
+                            break
+                    if pred:
+                        break
+                if pred:
+                    break
+            if pred is None:
+                def cli(mod, argv):
+                    lg = logging.getLogger("batchie")
+                    old_handlers, old_level, old_argv = lg.handlers[:], lg.level, sys.argv
+                    sys.argv = argv
+                    try:
+                        with contextlib.redirect_stderr(io.StringIO()), contextlib.redirect_stdout(io.StringIO()):
+                            mod.main()
+                    finally:
+                        sys.argv = old_argv
+                        lg.handlers[:] = old_handlers
+                        lg.setLevel(old_level)
+                order = [1, 0]
+                me_fn = os.path.join(d, "me.h5")
+                e = impl_call(cli, evaluate_model, ["evaluate_model", "--screen", os.path.join(d, "screen.h5"), "--thetas"] + [files[c] for c in order]
+                              + ["--output", me_fn])
+                if isinstance(e, ImplError):
+                    pred = "evaluate_model raised on the real chains: %r" % (e,)
+                else:
+                    me = ModelEvaluation.load_h5(me_fn)
+                    P = np.asarray(me.predictions, dtype=float)
+                    want_cols = [np.asarray(t.predict_viability(screen), dtype=float) for c in order for t in holders[c].thetas]
+                    want_ids = [pos for pos, c in enumerate(order) for _t in holders[c].thetas]
+                    if P.shape != (n, len(want_cols)):
+                        pred = "evaluation has shape %r for %d experiments and %d samples" % (P.shape, n, len(want_cols))
+                    elif any(P[:, k].tobytes() != want_cols[k].tobytes() for k in range(len(want_cols))):
+                        k = [k for k in range(len(want_cols)) if P[:, k].tobytes() != want_cols[k].tobytes()][0]
+                        pred = "prediction column %d is not the prediction of sample %d in chain-major order" % (k, k)
+                    elif [int(x) for x in me.chain_ids] != want_ids:
+                        pred = "chain ids are not aligned with the columns"
+                    else:
+                        saved = {nm: getattr(analyze_model_evaluation.plotting, nm) for nm in
+                                 ("plot_correlation_heatmap", "predicted_vs_observed_scatterplot", "predicted_vs_observed_scatterplot_per_sample",
+                                  "per_sample_violin_plot")}
+                        try:
+                            for nm in saved:
+                                setattr(analyze_model_evaluation.plotting, nm, lambda *a, **k: None)
+                            outdir = os.path.join(d, "report")
+                            e = impl_call(cli, analyze_model_evaluation, ["analyze_model_evaluation", "--model-evaluation", me_fn, "--screen",
+                                                                          os.path.join(d, "screen.h5"), "--thetas"] + [files[c] for c in order]
+                                          + ["--output-dir", outdir])
+                        finally:
+                            for nm, fn_ in saved.items():
+                                setattr(analyze_model_evaluation.plotting, nm, fn_)
+                        if isinstance(e, ImplError):
+                            pred = "analyze_model_evaluation raised on the real chains: %r" % (e,)
+                        else:
+                            rep = json.load(open(os.path.join(outdir, "summary_statistics.json")))
+                            o = np.asarray(me.observations, dtype=float)
+                            sq = (P - o[:, None]) ** 2
+                            tot = 0.0
+                            for i in range(P.shape[0]):
+                                for k in range(P.shape[1]):
+                                    tot += sq[i, k]
+                            per_exp = [sum(sq[i, k] for k in range(P.shape[1])) / P.shape[1] for i in range(P.shape[0])]
+                            per_chain = [sum(sq[i, k] for i in range(P.shape[0]) for k in range(P.shape[1]) if want_ids[k] == cid)
+                                         / (P.shape[0] * want_ids.count(cid)) for cid in sorted(set(want_ids))]
+                            var = lambda l: sum((x - sum(l) / len(l)) ** 2 for x in l) / len(l)
+                            for key, want in (("mse", tot / sq.size), ("mse_variance", var(per_exp)), ("inter_chain_mse_variance", var(per_chain))):
+                                if abs(rep.get(key, float("nan")) - want) > 1e-9 * max(1.0, abs(want)) or rep.get(key) != rep.get(key):
+                                    pred = "reported %s %r differs from its definition on the evaluation %r" % (key, rep.get(key), want)
+                                    break
+    finally:
+        np.random.set_state(state)
+        shutil.rmtree(d, ignore_errors=True)
+    return dict(wire=None, impl=dict(samples=len(alls), experiments=n), pred=pred, features=feats)
+
+
 def run(desc):
     k = desc["kind"]
     if k == "equals":
@@ -808,6 +1023,8 @@ def run(desc):
         return _run_evaluate(desc)
     if k == "ops":
         return _run_ops(desc)
+    if k == "pipeline":
+        return _run_pipeline(desc)
     raise ValueError(k)
 
 
